@@ -34,7 +34,8 @@ def wf_defs():
 
 
 def selections(names):
-    return [None, [names[0]], [names[1]], [names[-1]], [names[1], names[-1]], ["Zz*"]]
+    # (a pattern that uses only a character class: no `*` or `?` in it)
+    return [None, [names[0]], [names[1]], [names[-1]], [names[1], names[-1]], ["Zz*"], ["[" + names[1][0] + "Q]" + names[1][1:]]]
 
 
 def check_after(before_files, after, wf, sel, hashing, before_hashes):
@@ -165,6 +166,44 @@ def symlink_batch(acc, batch):
                           msg=f"`gwf touch {' '.join(sel)}` with output {which} being a symbolic link to a {kind} file, hashing={hashing}: {problems[:3]}")
 
 
+def dir_batch(acc, batch):
+    """A declared output that is an existing directory (a tool that writes a directory of results): touch must get through the whole cone
+    and leave the directory's content alone."""
+    for sel, hashing in batch:
+        wf = W.Workflow([W.T("A", ["src"], ["outdir"], spec="echo A\n"), W.T("B", ["outdir"], ["b"], spec="echo B\n"), W.T("C", ["b"], ["c"], spec="echo C\n")])
+        files = {"src": (3, "src"), "outdir/part1": (1, "result 1"), "outdir/part2": (1, "result 2"), "b": (2, "old:b")}
+        conf = {"backend": "slurm"}
+        if hashing:
+            conf["use_spec_hashes"] = True
+        w0 = W.World(wf, files=files, conf=conf)
+        with W.Session(w0) as s:
+            t1 = W.rank_ns(1)
+            os.utime(os.path.join(s.proj, "outdir"), ns=(t1, t1))  # the directory itself is older than src
+            r = s.gwf(["touch"] + sel)
+            after = s.snapshot()
+            rs = s.gwf(["status"])
+            isdir = os.path.isdir(os.path.join(s.proj, "outdir"))
+        acc.extra["invocations"] += 2
+        case = dict(kind="dir", sel=sel, hashing=hashing)
+        rows = W.parse_status(rs.stdout) if rs.exit_code == 0 else {}
+        cone = {"A"} if sel == ["A"] else {"A", "B"} if sel == ["B"] else {"A", "B", "C"}
+        problems = []
+        if r.exit_code != 0 or r.crashed():
+            problems.append(f"touch failed: {r.exc or r.err_summary()}")
+        notdone = sorted(n for n in cone if rows.get(n) != "completed")
+        if notdone:
+            problems.append(f"after touch, status shows {[(n, rows.get(n)) for n in notdone]}")
+        if not isdir:
+            problems.append("the output directory is no longer a directory")
+        for p_ in ("outdir/part1", "outdir/part2", "src", "b"):
+            if p_ not in after.files or after.files[p_][1] != files[p_][1]:
+                problems.append(f"{p_} disappeared or its content changed")
+        acc.case(key=json.dumps(case, sort_keys=True), outcome=f"dir problems={len(problems)}", sample=case)
+        if problems:
+            acc.violation(sig=dict(kind="dir", what=problems[0].split(" ")[0] + " " + problems[0].split(" ")[1]), case=case, observed=problems,
+                          msg=f"`gwf touch {' '.join(sel)}` with a directory as declared output of A, hashing={hashing}: {problems[:3]}")
+
+
 def order_batch(acc, batch):
     """touch_workflow with every iteration order of dependency sets and endpoint set."""
     import shutil
@@ -248,10 +287,11 @@ def run(ctx):
         nouts = len({o for n, i, o_ in defs for o in W.T(n, [], o_).flat("outputs")})
         for state in itertools.product([None, 1, 3], repeat=nouts):
             oitems.append((wname, state))
+    ctx.pmap(me, "dir_batch", [(sel, h) for sel in ([], ["A"], ["B"], ["C"]) for h in (False, True)], chunk=2)
     ctx.pmap(me, "symlink_batch", [(wh, k, sel, h) for wh in ("a", "b", "c") for k in ("stale", "fresh", "dangling") for sel in ([], ["A"], ["B"], ["C"]) for h in (False, True)], chunk=4)
     ctx.pmap(me, "order_batch", oitems if not quick else oitems[::3], chunk=4)
     ctx.rule = "cli: (workflow, file state over {missing,1..r}^outputs, selection, hashing); order: (workflow, file state, endpoint order, per-node dependency order)"
-    ctx.bound = dict(workflows=list(wf_defs()), ranks=2 if quick else 3, selections=6, order_items=len(oitems) if not quick else len(oitems[::3]))
+    ctx.bound = dict(workflows=list(wf_defs()), ranks=2 if quick else 3, selections=7, order_items=len(oitems) if not quick else len(oitems[::3]))
     ctx.assumptions = ["touch order is taken from the audit-hook journal of os.utime/open events and re-stamped with distinct virtual ticks (kernel mtime granularity hides the order otherwise)",
                        "sources are not dated in the future"]
 
@@ -262,6 +302,9 @@ def replay(case):
     acc = Acc()
     if case["kind"] == "cli":
         cli_batch(acc, [(case["wf"], case["hashing"])], ranks=3, only=(list(case["state"]), case["sel"]))
+        return acc.violations
+    if case["kind"] == "dir":
+        dir_batch(acc, [(case["sel"], case["hashing"])])
         return acc.violations
     if case["kind"] == "symlink":
         symlink_batch(acc, [(case["which"], case["link"], case["sel"], case["hashing"])])
